@@ -95,11 +95,10 @@ theorem lie_rminus_self (h : LieLaws G Valid D) (g : Vec α G.rep) (hg : Valid g
 theorem lie_laws (h : LieLaws G Valid D) :
     ManLaws (ofLie G) Valid (fun _ a => D (vecOfList a)) (fun _ _ => True) where
   valid_rplus := by
-    intro g a hg _
+    intro g a hg _ _
     exact h.valid_comp _ _ hg (h.valid_exp _)
   dof_rplus := by intros; rfl
   compat_rplus := by intros; trivial
-  compat_refl := by intros; trivial
   compat_dof := by intros; rfl
   rminus_length := by
     intro g1 g2 _ _ _
@@ -174,17 +173,14 @@ theorem variant_laws (hA : ∀ i, ManLaws (A i) (Valid i) (Dom i) (Compat i)) (f
     ManLaws (variant A first) (fun v => Valid v.1 v.2) (fun v a => Dom v.1 v.2 a)
       (SigmaCompat Compat) where
   valid_rplus := by
-    rintro ⟨i, x⟩ a hv hl
-    exact (hA i).valid_rplus x a hv hl
+    rintro ⟨i, x⟩ a hv hl hd
+    exact (hA i).valid_rplus x a hv hl hd
   dof_rplus := by
-    rintro ⟨i, x⟩ a hv hl
-    exact (hA i).dof_rplus x a hv hl
+    rintro ⟨i, x⟩ a hv hl hd
+    exact (hA i).dof_rplus x a hv hl hd
   compat_rplus := by
     rintro ⟨i, x⟩ a hv hl hd
     exact ⟨rfl, (hA i).compat_rplus x a hv hl hd⟩
-  compat_refl := by
-    rintro ⟨i, x⟩ hv
-    exact ⟨rfl, (hA i).compat_refl x hv⟩
   compat_dof := by
     rintro ⟨i, x⟩ ⟨j, y⟩ ⟨h, hc⟩
     simp only at h; subst h
@@ -216,17 +212,14 @@ theorem variant_laws (hA : ∀ i, ManLaws (A i) (Valid i) (Dom i) (Compat i)) (f
 theorem any_laws (hA : ∀ i, ManLaws (A i) (Valid i) (Dom i) (Compat i)) :
     ManLaws (any A) (fun v => Valid v.1 v.2) (fun v a => Dom v.1 v.2 a) (SigmaCompat Compat) where
   valid_rplus := by
-    rintro ⟨i, x⟩ a hv hl
-    exact (hA i).valid_rplus x a hv hl
+    rintro ⟨i, x⟩ a hv hl hd
+    exact (hA i).valid_rplus x a hv hl hd
   dof_rplus := by
-    rintro ⟨i, x⟩ a hv hl
-    exact (hA i).dof_rplus x a hv hl
+    rintro ⟨i, x⟩ a hv hl hd
+    exact (hA i).dof_rplus x a hv hl hd
   compat_rplus := by
     rintro ⟨i, x⟩ a hv hl hd
     exact ⟨rfl, (hA i).compat_rplus x a hv hl hd⟩
-  compat_refl := by
-    rintro ⟨i, x⟩ hv
-    exact ⟨rfl, (hA i).compat_refl x hv⟩
   compat_dof := by
     rintro ⟨i, x⟩ ⟨j, y⟩ ⟨h, hc⟩
     simp only at h; subst h
